@@ -307,6 +307,7 @@ int main(int argc, char **argv) {
     vf_heartbeat_start();
     pctx = parsec_init(cores, &pargc, &pargv);
     if (!pctx) die("parsec_init failed");
+    VF_TICK();
     if (ypm > 0) vf_yield_config((uint64_t)yseed * 7919 + myrank, ypm, yus, (1ULL << PARSEC_VERIF_SITE_DTD) | (1ULL << PARSEC_VERIF_SITE_SCHEDULING));
 
     /* PINS callbacks on every computing stream */
@@ -336,6 +337,7 @@ int main(int argc, char **argv) {
         MAT[k] = m; DC[k] = (parsec_data_collection_t *)m;
         char nm[8]; snprintf(nm, sizeof nm, "A%d", k); parsec_data_collection_set_key(DC[k], nm);
         parsec_dtd_data_collection_init(DC[k]);
+        VF_TICK();
     }
     for (int g = 0; g < NTL; g++) if (TL[g].kind == 0) {
         parsec_data_collection_t *A = DC[TL[g].tp];
@@ -444,6 +446,7 @@ int main(int argc, char **argv) {
     }
     for (int k = 0; k < NTP; k++) parsec_taskpool_free(TP[k]);
     parsec_context_wait(pctx);
+    VF_TICK();
     for (int e = 0; e < NES; e++) account_again(&ESCB[e]);
 
     /* ---------- verdicts */
